@@ -28,6 +28,7 @@ RULE = (
     "the compiled C++ for a subset) must equal the base program's output under the renaming (1e-12) and the reference. "
     "distinct = distinct (name list, keyword order) constructions + (base, renaming) twins; non-trivial = >= 2 names."
     " Accept / refuse decisions with Config(extra_validation=True) are compared between a definition and its renamed / re-ordered / re-containered twins (3 definitions incl. a cross-coupled nonlinear one)."
+    " Vectors built from the renamed twin's names (state, covariance, control, reading) and readings of another sensor of equal size must be refused by the base model / filter; partially named vectors are built while freed buffers of the same size hold non-zero values and must show the documented defaults."
 )
 ASSUMPTIONS = [
     "names are identifier-safe and avoid what the generator reserves in C++ (state, control, dt, data, rows, ...; _tN)",
@@ -124,6 +125,10 @@ def eval_construct(case):
                     n += 1
                     sigs.append(f"{names}:{order}")
                     try:
+                        # freed buffers of the same sizes, full of non-zero values, are lying around when the vectors are built:
+                        # entries that are not named must still come out as the documented defaults
+                        g1, g2 = np.full((len(names), 1), 777.25), np.full((len(names), len(names)), -333.5)
+                        del g1, g2
                         v = V(**kw)
                         c = Cv(**kw)
                         vd = V.from_dict({sympy.Symbol(k): x for k, x in kw.items()})
@@ -388,6 +393,49 @@ def eval_twin(case):
                 for key, v in o1.items():
                     if key in o2 and not pyimpl.close(v, o2[key], 1e-9, 4.0):
                         fail("cpp-vs-python-by-name", f"{key}: C++ {v!r} vs Python {o2[key]!r}")
+    # a vector built from the TWIN's names (same kind, same size, other names) handed to the BASE model / filter has no by-name
+    # meaning there: it must be refused, not re-bound by position
+    try:
+        eb = pyimpl.py_ekf(base, {"innovation_filtering": None})
+        et = pyimpl.py_ekf(twin, {"innovation_filtering": None})
+        mb, mt = pyimpl.py_model(base), pyimpl.py_model(twin)
+        pb, pt_ = pts[0], tpts[0]
+        sb, cb, ub = eb.State(**pb["x"]), eb.Covariance.from_data(np.array(pb["P"], dtype=float)), eb.Control(**pb["u"])
+        stw, ctw, utw = et.State(**pt_["x"]), et.Covariance.from_data(np.array(pt_["P"], dtype=float)), et.Control(**pt_["u"])
+        foreign = [("model(state of the twin)", lambda: mb.model(pb["dt"], mt.State(**pt_["x"]), mb.Control(**pb["u"]))),
+                   ("process_model(state of the twin)", lambda: eb.process_model(pb["dt"], stw, cb, ub)),
+                   ("process_model(covariance of the twin)", lambda: eb.process_model(pb["dt"], sb, ctw, ub))]
+        if pb["u"]:
+            foreign.append(("process_model(control of the twin)", lambda: eb.process_model(pb["dt"], sb, cb, utw)))
+            foreign.append(("model(control of the twin)", lambda: mb.model(pb["dt"], mb.State(**pb["x"]), mt.Control(**pt_["u"]))))
+        keys = sorted(eb.sensor_models)
+        for key in keys:
+            zt = et.make_reading(r(key), **pt_["z"][r(key)])
+            foreign.append((f"sensor_model({key}, reading of the twin)", lambda key=key, zt=zt: eb.sensor_model(sb, cb, sensor_key=key, sensor_reading=zt)))
+            foreign.append((f"sensor_model({key}, state of the twin)", lambda key=key: eb.sensor_model(stw, cb, sensor_key=key, sensor_reading=eb.make_reading(key, **pb["z"][key]))))
+        # ... and a reading of ANOTHER sensor of the same filter with equally many readings
+        for k1 in keys:
+            for k2 in keys:
+                n1, n2 = pyimpl.names_of(eb.sensor_models[k1].Reading), pyimpl.names_of(eb.sensor_models[k2].Reading)
+                if k1 != k2 and len(n1) == len(n2) and n1 != n2:
+                    z2 = eb.make_reading(k2, **pb["z"][k2])
+                    foreign.append((f"sensor_model({k1}, reading of sensor {k2})", lambda k1=k1, z2=z2: eb.sensor_model(sb, cb, sensor_key=k1, sensor_reading=z2)))
+        if any(ren.get(a_, a_) != a_ for a_ in list(pb["x"]) + list(pb["u"])):
+            for lab, call in foreign:
+                n += 1
+                try:
+                    call()
+                except Exception:
+                    continue
+                if "reading" in lab and all(ren.get(a_, a_) == a_ for a_ in sum((list(v_) for v_ in pb["z"].values()), [])) and "of sensor" not in lab:
+                    continue  # reading names were not renamed by this renaming: the twin's reading is the same thing
+                if ("state" in lab or "covariance" in lab) and all(ren.get(a_, a_) == a_ for a_ in pb["x"]):
+                    continue
+                if "control" in lab and all(ren.get(a_, a_) == a_ for a_ in pb["u"]):
+                    continue
+                fail("foreign-vector-accepted", f"{lab} was accepted although its names are those of the renamed twin, not of this model")
+    except Exception as e:
+        fail("raises:py", f"{type(e).__name__}: {str(e)[:200]}")
     # base equals the reference model (so agreement is not two wrongs)
     refb = RefEKF(base)
     try:
